@@ -125,3 +125,114 @@ theorem finish_isSome (st : LB.St) (h : LB.Inv st) : (LB.finish st).isSome = tru
   · simp [this]
 
 end C08T
+
+/-! ### the fine-grained decode loop of `PK` (reader positions, `as u32` casts) is the tied loop -/
+namespace C08T
+open PK
+
+def convDec : PK.Dec → Asm.Dec
+  | .ok n => .ok n
+  | .exhausted => .exhausted
+  | .invalid => .invalid
+
+/-- forget the listing, keep the reported size -/
+def toPK : Asm.LoopRes → PK.LoopRes
+  | .done _ f => .done f
+  | .panic => .panic
+  | .nofuel => .stuck
+
+theorem toPK_cons (it : Asm.Item) (r : Asm.LoopRes) : toPK (r.cons it) = toPK r := by
+  cases r <;> rfl
+
+theorem decodeLoop_eq_tied (dec : List UInt8 → PK.Dec) (adjust : Nat) (bytes : List UInt8) (decodeLen : Nat)
+    (hok : ∀ s n, dec s = .ok n → 1 ≤ n ∧ n ≤ s.length) (ha : 1 ≤ adjust) (hb : bytes.length ≤ u32Max)
+    (offset base pos : Nat) (h1 : offset = base + pos) (h2 : base + pos ≤ bytes.length)
+    (fuel : Nat) (hf : decodeLen - offset < fuel) :
+    decodeLoop dec adjust bytes decodeLen offset base pos =
+      toPK (Asm.loop adjust decodeLen bytes.length (fun p => convDec (dec (bytes.drop p))) fuel offset) := by
+  have hb' : bytes.length ≤ 4294967295 := hb
+  fun_induction decodeLoop dec adjust bytes decodeLen offset base pos generalizing fuel with
+  | case1 offset base pos h =>
+    cases fuel with
+    | zero => omega
+    | succ fuel => unfold Asm.loop; simp [h, toPK]
+  | case2 offset base pos h before n hdec after hlt =>
+    exfalso
+    have hk := (hok _ _ hdec).2
+    simp only [List.length_drop] at hk
+    have hm := mod_facts pos n bytes.length (by omega) hb'
+    simp only [before, after, two32, hm.1, hm.2] at hlt
+    omega
+  | case3 offset base pos h before n hdec after hlt delta hd =>
+    exfalso
+    have hk := hok _ _ hdec
+    simp only [List.length_drop] at hk
+    have hm := mod_facts pos n bytes.length (by omega) hb'
+    simp only [delta, before, after, two32, hm.1, hm.2] at hd
+    omega
+  | case4 offset base pos h before n hdec after hlt delta hd hov =>
+    exfalso
+    have hk := hok _ _ hdec
+    simp only [List.length_drop] at hk
+    have hm := mod_facts pos n bytes.length (by omega) hb'
+    simp only [delta, before, after, two32, hm.1, hm.2, u32Max] at hov
+    omega
+  | case5 offset base pos h before n hdec after hlt delta hd hov ih =>
+    have hk := hok _ _ hdec
+    simp only [List.length_drop] at hk
+    have hm := mod_facts pos n bytes.length (by omega) hb'
+    have hdl : delta = n := by simp only [delta, before, after, two32, hm.1, hm.2]; omega
+    cases fuel with
+    | zero => omega
+    | succ fuel =>
+      have hih := ih (by rw [hdl]; omega) (by omega) fuel (by rw [hdl]; omega)
+      rw [hih]
+      conv => rhs; unfold Asm.loop
+      have hnot : ¬ decodeLen ≤ offset := by omega
+      have hd' : dec (List.drop offset bytes) = .ok n := by rw [h1]; exact hdec
+      have hnp : ¬ offset + n > Asm.u32max := by simp only [Asm.u32max]; omega
+      simp only [hnot, if_false, hd', convDec, hnp, toPK_cons, hdl]
+  | case6 offset base pos h hdec =>
+    cases fuel with
+    | zero => omega
+    | succ fuel =>
+      unfold Asm.loop
+      have hnot : ¬ decodeLen ≤ offset := by omega
+      have hd' : dec (List.drop offset bytes) = .exhausted := by rw [h1]; exact hdec
+      simp [hnot, hd', convDec, toPK]
+  | case7 offset base pos h hdec hgt => exfalso; omega
+  | case8 offset base pos h hdec hgt ha0 => exfalso; omega
+  | case9 offset base pos h hdec hgt ha0 hov =>
+    cases fuel with
+    | zero => omega
+    | succ fuel =>
+      unfold Asm.loop
+      have hnot : ¬ decodeLen ≤ offset := by omega
+      have hd' : dec (List.drop offset bytes) = .invalid := by rw [h1]; exact hdec
+      have h3 : ¬ offset > bytes.length := by omega
+      have h4 : offset + adjust > Asm.u32max := by simpa [u32Max, Asm.u32max] using hov
+      simp [hnot, hd', convDec, h3, h4, toPK]
+  | case10 offset base pos h hdec hgt ha0 hov hend =>
+    cases fuel with
+    | zero => omega
+    | succ fuel =>
+      unfold Asm.loop
+      have hnot : ¬ decodeLen ≤ offset := by omega
+      have hd' : dec (List.drop offset bytes) = .invalid := by rw [h1]; exact hdec
+      have h3 : ¬ offset > bytes.length := by omega
+      have h4 : ¬ offset + adjust > Asm.u32max := by simpa [u32Max, Asm.u32max] using hov
+      simp [hnot, hd', convDec, h3, h4, hend, toPK]
+  | case11 offset base pos h hdec hgt ha0 hov hend ih =>
+    cases fuel with
+    | zero => omega
+    | succ fuel =>
+      have hih := ih (by omega) (by omega) fuel (by omega)
+      rw [hih]
+      conv => rhs; unfold Asm.loop
+      have hnot : ¬ decodeLen ≤ offset := by omega
+      have hd' : dec (List.drop offset bytes) = .invalid := by rw [h1]; exact hdec
+      have h3 : ¬ offset > bytes.length := by omega
+      have h4 : ¬ offset + adjust > Asm.u32max := by simpa [u32Max, Asm.u32max] using hov
+      simp only [hnot, if_false, hd', convDec, h3, h4, hend, toPK_cons]
+
+end C08T
